@@ -16,7 +16,7 @@ import (
 func NewUnixFSFile(ctx context.Context, substrate ipld.Node, lsys *ipld.LinkSystem) (LargeBytesNode, error) {
 	if substrate.Kind() == ipld.Kind_Bytes {
 		// A raw / single-node file.
-		return &singleNodeFile{substrate}, nil
+		return &singleNodeFile{Node: substrate, substrate: substrate}, nil
 	}
 	// see if it's got children.
 	links, err := substrate.LookupByString("Links")
@@ -62,6 +62,7 @@ type LargeBytesNode interface {
 
 type singleNodeFile struct {
 	ipld.Node
+	substrate ipld.Node
 }
 
 func (f *singleNodeFile) AsLargeBytes() (io.ReadSeeker, error) {
@@ -69,7 +70,7 @@ func (f *singleNodeFile) AsLargeBytes() (io.ReadSeeker, error) {
 }
 
 func (f *singleNodeFile) Substrate() datamodel.Node {
-	return f.Node
+	return f.substrate
 }
 
 type singleNodeReader struct {
